@@ -513,6 +513,82 @@ O1_HEURISTIC = {
 }
 
 
+# ---- T2: every rescheduled departure is bounded by the latest allowed shift start ------------------------------------
+URD = "vrp_core::construction::enablers::schedule_update::update_route_departure"
+
+
+# which side of the shift's start window bounds the new departure (confirmed by reading; a caller not listed must read both sides)
+T2_SIDES = {
+    "vrp_core::construction::enablers::departure_time::advance_departure_time": ("latest",),     # moves the departure later: min(latest_allowed_departure)
+    "vrp_core::construction::enablers::departure_time::recede_departure_time": ("earliest",),    # moves it earlier: bounded by earliest_allowed_departure
+    "<vrp_core::construction::features::tour_limits::TravelLimitState as vrp_core::models::goal::FeatureState>::notify_failure": ("latest",),  # candidate departures filtered by start_latest
+}
+
+
+def _start_latest_reads(F, g, side="latest"):
+    """reads of `<start place>.time.<side>` in body g: the base is a local/upvar named start*, a place reached through a field `start`,
+    or the parameter of a closure applied to a value reached through a field `start`"""
+    fn = F.fns[g]
+    hits = []
+    for p in util.all_places(fn):
+        pf = mir.proj_fields(p)
+        if len(pf) < 2 or pf[-1][1] != side or pf[-2][1] != "time":
+            continue
+        names = [x[1] for x in pf[:-2]]
+        l = p["l"]
+        nm = fn["names"].get(str(l), "")
+        if "end" in names:
+            continue
+        if "start" in names or nm.startswith("start"):
+            hits.append(p)
+            continue
+        if fn["kind"] == "Closure" and l == 1 and pf and str(pf[0][1]).isdigit():
+            ups = fn.get("upvars", [])
+            i = int(pf[0][1])
+            if i < len(ups) and ups[i][0].startswith("start"):
+                hits.append(p)
+                continue
+        if fn["kind"] == "Closure" and 2 <= l <= fn["argc"]:
+            par = F.fns.get(fn["parent"])
+            if not par:
+                continue
+            for bi, si, st in mir.stmts(par):
+                if st["r"]["k"] == "agg" and st["r"].get("n") == g and not st["d"]["p"]:
+                    cl = st["d"]["l"]
+                    for bj, t in mir.calls(par):
+                        if any(mir.is_place(a) and a["l"] == cl and not a["p"] for a in t["args"][1:]) and t["args"]:
+                            tr = mir.trace(par, t["args"][0])
+                            if any("start" in pr and "end" not in pr for k, v, pr in tr):
+                                hits.append(p)
+    return hits
+
+
+def t2_departure_bounded(F, r):
+    if URD not in F.fns:
+        raise AnchorError(URD)
+    sites = [(c, t) for (c, kind, bi, t) in cg.callers(F, URD, cha=False) if t is not None]
+    if len(sites) < 3:
+        raise AnchorError(f"only {len(sites)} callers of update_route_departure (3 counted)")
+    seen = set()
+    for c, t in sites:
+        root = F.root_of(c)
+        if root in seen:
+            continue
+        seen.add(root)
+        scope = list(F.family(root))
+        for g in sorted(_direct_callee_roots(F, root)):
+            if F.fns[g]["module"].startswith(("vrp_core::construction::enablers", "vrp_core::construction::features")):
+                scope += F.family(g)
+        name = util.short_fn(root)
+        for side in T2_SIDES.get(root, ("latest", "earliest")):
+            reads = [(g, p) for g in scope for p in _start_latest_reads(F, g, side)]
+            if reads:
+                r.ok(f"{name}: new departure vs {side}", f"bounded by the shift's {side} start ({len(reads)} read(s) of start.time.{side} in {util.short_fn(reads[0][0])})")
+            else:
+                r.fail(f"{name}: new departure vs {side}", f"a new departure time is handed to update_route_departure, but nothing on the way reads the shift's {side} allowed start "
+                       f"(start.time.{side}): the tour can depart outside the vehicle's start window — a time-window violation of the vehicle", F.loc(c, t["ln"]))
+
+
 def q1_no_self_comparison(F, r):
     from .common import self_comparison_rule
     n = self_comparison_rule(F, r, ("vrp_core::construction::features", "vrp_core::construction::enablers", "vrp_core::models::common", "vrp_core::models::problem",
@@ -881,6 +957,7 @@ def run(ctx):
     ctx.run("C01-K3", "pragmatic reader: demand, capacity and capacity features pick the load type by the same predicate", k3_load_types, floor=10)
     ctx.run("C01-R1", "relaxed / amended goals never escape: original problem re-assigned on every path, or every individual recovered through repair", r1_relaxed_goal, floor=5)
     ctx.run("C01-A1", "goal assembly: every hard constraint is pushed into the goal's feature list under its own input-derived property", a1_goal_assembly, floor=20)
+    ctx.run("C01-T2", "every rescheduled departure is bounded by the shift's latest allowed start", t2_departure_bounded, floor=2)
     ctx.run("C01-D1", "routing legs are queried in travel direction (prev -> target -> next)", d1_leg_direction, floor=4)
     ctx.run("C01-K1", "slot type agreement: every reader of a TypeId-keyed slot uses a type some writer stores", k1_slot_types, floor=40)
     ctx.run("C01-K2", "no orphan slot: every slot read by a hard constraint has a writer", k2_no_orphans, floor=15)
